@@ -32,6 +32,7 @@ type TargetSpec struct {
 
 type ShardSpec struct {
 	Ready       bool             `json:"ready"`
+	ReadyFrom   int              `json:"ready_from_cycle,omitempty"` // not ready before this cycle (multi-cycle runs)
 	StatusFail  string           `json:"status_fail,omitempty"`  // "", "503", "refused", "lost"
 	RuntimeFail string           `json:"runtime_fail,omitempty"` // same
 	HashDiff    bool             `json:"hash_diff,omitempty"`
@@ -66,6 +67,7 @@ type Scenario struct {
 	// map permutation salt, math/rand seed) a function of that replica's own
 	// seed, so that a replica sees the same schedule with and without the others.
 	ReplicaSeeds []uint64 `json:"replica_seeds,omitempty"`
+	Cycles       int      `json:"cycles,omitempty"` // number of consecutive cycles (default 1)
 }
 
 // Gen controls what the generator may produce.
@@ -75,6 +77,7 @@ type Gen struct {
 	ReplicaErrs bool // list / scale errors
 	MaxShards   int
 	MaxTargets  int
+	MultiCycle  bool // draw 1-3 consecutive cycles and shards that become ready later
 }
 
 func sizes(lim int64) []int64 {
@@ -211,6 +214,19 @@ func Generate(tp *core.Tape, g Gen) *Scenario {
 				for k := 0; k < n; k++ {
 					if tp.Bool("sub", 1, 2) {
 						rs.Shards[k].Copies[t.Hash] = mk(core.Pick(tp, "sub_state", "", "in_transfer"))
+					}
+				}
+			}
+		}
+	}
+	if g.MultiCycle {
+		sc.Cycles = 1 + tp.Weighted("cycles", 2, 3, 2)
+		if sc.Cycles > 1 {
+			for _, rs := range sc.Replicas {
+				if tp.Bool("replica_ready_later", 1, 3) {
+					from := 1 + tp.Choose("ready_from", sc.Cycles-1)
+					for _, sh := range rs.Shards {
+						sh.ReadyFrom = from
 					}
 				}
 			}
